@@ -377,3 +377,35 @@ Section P.
       - now apply body_exact_TStruct.
     Qed.
   End Body.
+
+  Lemma refl_obj_exact : refl_drop8 c = false ->
+    forall v, has_ty v ty_ObjectReference = true -> lens_ok v = true -> keys_nodup v ->
+    exact (refl_body c tval_eqb no_dyn ty_ObjectReference) v (spec_enc v).
+  Proof.
+    intros Hd8 v Hty Hlen Hkey.
+    apply (refl_body_exact no_dyn False Hd8 (fun F : False => False_ind _ F));
+      [left; reflexivity|apply wfz_ObjectReference|reflexivity|exact Hty|exact Hlen|exact Hkey].
+  Qed.
+
+  Theorem refl_dec_spec : forall v t rest,
+    refl_drop8 c = false ->
+    good_ty t = true -> has_ty v t = true -> refl_domain t = true -> lens_ok v = true -> keys_nodup v ->
+    refl_dec c tval_eqb t (spec_enc v ++ rest) = ROk (v, rest).
+  Proof.
+    intros v t rest Hd8 Hgood Hty Hdom Hlen Hkey. unfold refl_dec.
+    apply (refl_body_exact (refl_body c tval_eqb no_dyn ty_ObjectReference) True Hd8 (fun _ => refl_obj_exact Hd8));
+      [right; exact I|now apply good_ty_wfz|exact Hdom|exact Hty|exact Hlen|exact Hkey].
+  Qed.
+
+  (* ---------- refutation: with the 8-bit cases missing the encoder loses the field ---------- *)
+  Example refl_drop8_refuted :
+    let v := VTup [VNum 1 127; VNum 4 1] in
+    let t := TStruct "S"%string [("a"%string, TS SI8); ("b"%string, TS SI32)] in
+    good_ty t = true /\ has_ty v t = true /\ refl_domain t = true /\ refl_enc wpinned v <> spec_enc v.
+  Proof. vm_compute. repeat split; discriminate. Qed.
+End P.
+
+Print Assumptions tval_eqb_eq.
+Print Assumptions refl_enc_spec.
+Print Assumptions refl_dec_spec.
+Print Assumptions refl_drop8_refuted.
